@@ -48,17 +48,20 @@ private theorem bool_or_pop (A Sq S1 S2 : Bool) (hq : Sq = true → A = true)
   cases A <;> cases Sq <;> cases S1 <;> cases S2 <;> simp_all
 
 /-- Under `Or`/`DisjunctionMax` the loop keeps the union (documents without odd terms). -/
-theorem mergeLoop_or (env : Env) (d : Doc) (hp : d.Plain) (ef : List (Option Field)) (l : List Q) :
+theorem mergeLoop_or (env : Env) (d : Doc) (hp : d.BelowMax) (ef : List (Option Field)) (l : List Q)
+    (hl : LOk d l) :
     (efAny d ef || satAny env (mergeLoop false ef l).1 d) = (efAny d ef || satAny env l d) := by
   fun_induction mergeLoop false ef l with
   | case1 ef => rfl
   | case2 ef q rest h ih =>
     simp only [satAny]
-    exact bool_or_pop _ _ _ _ (sat_of_field_mem env d q ef h) ih
+    exact bool_or_pop _ _ _ _ (sat_of_field_mem env d q ef h) (ih hl.tail)
   | case3 ef q rest h r hr p q' ef' res ih =>
     have hq : q = r.toQ := asRange_some hr
-    have h1 : sat env q' d = sat env p.1.toQ d := rngNormalize_sat env p.1 d hp
-    have h2 := absorb_satAny env d r rest
+    have hrok : ROk d r := hl q (List.mem_cons_self ..) r hr
+    obtain ⟨h2, hpok⟩ := absorb_satAny env d r rest hrok hl.tail
+    have h1 : sat env q' d = sat env p.1.toQ d := rngNormalize_sat env p.1 d hp hpok
+    have ih := ih (hl.tail.sub (absorb_mem false r rest))
     simp only [satAny] at h2 ⊢
     have hef : efAny d ef' = ((q'.isEvery && sat env q' d) || efAny d ef) := efAny_next env d q' ef
     rw [hef] at ih
@@ -67,6 +70,7 @@ theorem mergeLoop_or (env : Env) (d : Doc) (hp : d.Plain) (ef : List (Option Fie
     rw [this, h1, hq]
     exact congrArg _ h2
   | case4 ef q rest h hr ef' res ih =>
+    have ih := ih hl.tail
     simp only [satAny]
     have hef : efAny d ef' = ((q.isEvery && sat env q d) || efAny d ef) := efAny_next env d q ef
     rw [hef] at ih
